@@ -9,7 +9,7 @@ import (
 func init() {
 	register(&Check{
 		ID: "C08", Level: "exploration", QuickSecs: 170, ThoroughSecs: 1500,
-		Rule:        "(a) direct rules A <- A t1 [/ A t2] / b1 [/ b2] with tails and bases from {'a','b',\"ab\",[ab],B,'a' B,'b' #{}} and operand rule B from {'b',[ab],'a' 'b'?}, plain and with labelled recursion l:A r:t {action} (value shows the nesting); variants with an error-returning action and a #{} on a base alternative (they re-run in the final non-extending attempt); nullable base alternatives ('b'?, \"\", 'b'*: an empty seed has to be accepted and grown); (b) the E/T/F tower (2 and 3 levels) over one-letter operators; (c) single-cycle indirect pairs X <- Y t / b ; Y <- X u / c entered through either rule, with both name orders (leader first / second). Inputs: all strings over {a,b} up to L (quick 5, thorough 6), over {a,b,c} up to 4 for the tower; configurations {Memoize off/on} x {-, -optimize-parser}, all with -support-left-recursion. Oracle: the reference evaluates the first-entered rule of a cycle by seed growing, which for the stated rule form is (b1/...)(a1/...)* with left-nested values; compared: success, consumed prefix, exact value, error list, state snapshots, termination inside the budget. Non-trivial = the recursion grew at least twice (value nesting depth >= 2) or a final non-extending attempt ran a block.",
+		Rule:        "(a) direct rules A <- A t1 [/ A t2] / b1 [/ b2] with tails and bases from {'a','b',\"ab\",[ab],B,'a' B,'b' #{}} and operand rule B from {'b',[ab],'a' 'b'?}, plain and with labelled recursion l:A r:t {action} (value shows the nesting); variants with an error-returning action and a #{} on a base alternative (they re-run in the final non-extending attempt); nullable base alternatives ('b'?, \"\", 'b'*: an empty seed has to be accepted and grown); (b) the E/T/F tower (2 and 3 levels) over one-letter operators; (c) single-cycle indirect pairs X <- Y t / b ; Y <- X u / c entered through either rule, with both name orders (leader first / second). Inputs: all strings over {a,b} up to L (quick 5, thorough 6), over {a,b,c} up to 4 for the tower; configurations {Memoize off/on} x {-, -optimize-parser}, all with -support-left-recursion. Oracle: the reference evaluates the first-entered rule of a cycle by seed growing, which for the stated rule form is (b1/...)(a1/...)* with left-nested values; compared: success, consumed prefix, exact value, error list, state snapshots, termination inside the budget. Non-trivial = the recursion grew at least twice (value nesting depth >= 2) or a final non-extending attempt ran a block. Plus a long input family (chains of up to 24 operands, every operator pattern of period <= 3, with and without a dangling operator / closing token, three towers, both variants).",
 		Assumptions: []string{"E1 loader", "reference = seed growing at the first rule of the cycle entered at a position"},
 		Run:         runC08,
 	})
